@@ -239,6 +239,15 @@ def build(model, ranks=None, plain=False, default_resource_ids=False, share_id_o
     b.project, b.tasks, b.comps, b.teams, b.wps = project, tasks, comps, teams, wps
     b.workers = [w for tm in teams for w in tm.worker_list]
     b.facs = [f for wp in wps for f in wp.facility_list]
+    if default_resource_ids:
+        # fixed-ID lists name the resources by the IDs they actually got
+        wmap = dict(zip([wj["id"] for mj in model.get("teams", []) for wj in mj.get("workers", [])], [w.ID for w in b.workers]))
+        fmap = dict(zip([fj["id"] for pj in model.get("wps", []) for fj in pj.get("facs", [])], [f.ID for f in b.facs]))
+        for t_, tj in zip(tasks, model["tasks"]):
+            if tj.get("fixw") is not None:
+                t_.fixing_allocating_worker_id_list = [wmap.get(x, x) for x in tj["fixw"]]
+            if tj.get("fixf") is not None:
+                t_.fixing_allocating_facility_id_list = [fmap.get(x, x) for x in tj["fixf"]]
     return b
 
 
